@@ -313,4 +313,7 @@ def run(tier='quick', repo=None):
     rep.add('R-resize-guarded', 'ubuf_pic_common_resize', HOLDS if ok else VIOLATED, fn.loc, stores=len(stores),
             **({} if ok else {'what': 'a window field is stored on a path that has not compared the new window with both hmhigh and vhigh'}))
     rep.assumptions = ['negative offsets are normalised by adding the size before the range checks (as the code does); sizes fit in int']
+    from rules import c19model
+    gprog = facts.load_program([c19model.PIC_COMMON, c19model.PIC_MEM, c19model.SND_COMMON], repo=repo)
+    c19model.run_model(rep, gprog, tier)
     return rep
